@@ -66,7 +66,18 @@ def build_index(case):
 # ------------------------------------------------------------------ stream build
 
 def gen_build(rng, n, tier):
-    return [gen_setup(rng) for _ in range(n)]
+    out = [gen_setup(rng) for _ in range(n)]
+    for _ in range(max(2, n // 100)):
+        # an explicit resolution fine enough for more than a hundred rows or columns (the default grid is 100 x 100 at most), and a long steep
+        # feature drifting from one column / row to the next
+        tall = rng.random() < 0.6
+        W, H = (2, 6) if tall else (6, 2)
+        fine = rng.choice([0.03125, 0.046875])
+        res = [1.0, fine] if tall else [fine, 1.0]
+        steep = [[0.75, 5.96875], [1.25, 0.03125]] if tall else [[5.96875, 0.75], [0.03125, 1.25]]
+        tracks = [[[0.0, 0.0], [float(W), float(H)]], steep, [[0.5, 0.5], [1.5, 1.5]]]
+        out.append({'how': rng.choice(['collection', 'network']), 'first': 1, 'W': W, 'H': H, 'tracks': tracks, 'margin': 0.0, 'res': res})
+    return out
 
 
 def run_build(case):
